@@ -139,12 +139,19 @@ def grid(ctx):
     return min_x, min_y, widths, heights, docs
 
 
+NEAR_SHAPES = [(1000, 1000.5), (1000, 999.5), (1000.5, 1000), (999.5, 1000), (1000, 1000.001),
+               (1000, 999.999), (1000, 1000.0000001), (794, 1123), (1056, 816.5), (1000, 1000),
+               (3, 3.0000003), (2.9999997, 3)]
+NEAR_DOCS = [(1000, 1000), (793.7008, 1122.5197), (1056, 816), (11, 8.5), (3, 3), (100, 100.01)]
+
+
 def _chunk(args):
     vboxes, docs = args
     part = core.Part()
     styles = ["canon", "lower", "upper", "comma", "blanks"]
     for vbox in vboxes:
-        for doc in itertools.product(docs, docs):
+        for doc in (docs if docs and isinstance(docs[0], tuple) else
+                    itertools.product(docs, docs)):
             combos = 0
             for align in ALIGNS:
                 for mos in ("meet", "slice", None):
@@ -187,7 +194,12 @@ def _chunk(args):
 def run(ctx):
     min_x, min_y, widths, heights, docs = grid(ctx)
     vboxes = list(itertools.product(min_x, min_y, widths, heights))
-    part = core.fan_out(ctx, _chunk, [(chunk, docs) for chunk in core.split(vboxes, 32)])
+    jobs = [(chunk, docs) for chunk in core.split(vboxes, 32)]
+    # aspect ratios of page and viewBox that nearly (or exactly) coincide: the meet/slice and
+    # fill-X/fill-Y decisions sit on this boundary
+    near = [(m_x, 0, w, h) for m_x in (0, -5) for (w, h) in NEAR_SHAPES]
+    jobs += [(chunk, NEAR_DOCS) for chunk in core.split(near, 12)]
+    part = core.fan_out(ctx, _chunk, jobs)
     for case in INVALID:
         for clause, msg in check_invalid(case):
             part.violation(f"{clause}:{case!r}", msg, {"kind": "invalid", "case": list(case)})
@@ -202,7 +214,9 @@ def run(ctx):
         "distinct_nontrivial": cnt.get("nontrivial", 0),
         "rule": "viewBox (min-x, min-y, width, height) x document (w, h) x {none + 9 aligns} x "
                 "{meet, slice, absent} x {defer, not} with spelling/separator variants rotated "
-                "over the product, plus absent/empty preserveAspectRatio and textual sizes; 21 "
+                "over the product, plus absent/empty preserveAspectRatio and textual sizes; a family "
+                "of pages and viewBoxes whose aspect ratios differ by 1e-7..1e-3 relative or not "
+                "at all (24 viewBoxes x 6 pages); 21 "
                 "invalid inputs; non-trivial = uniform-scale cases whose aspect ratios differ "
                 "(alignment and meet/slice change the answer)",
         "samples": core.rotate(part.samples, ctx.seed, 4),
